@@ -59,6 +59,8 @@ pub struct HistCfg {
   /// The number of second-stage events is part of the state identity, so no second-stage continuation is lost to
   /// deduplication.
   pub stage1: usize,
+  /// declared writes do not use `create_writer`: the content appears by other means right before `written_to` stamps it
+  pub decl_direct: bool,
 }
 
 /// Fixed-key hash (no addresses, no random seeds): used for trace digests only.
@@ -299,6 +301,7 @@ fn unrelated_prelude() {
 pub fn judge_path(prog: &Prog, class: Class, cfg: &HistCfg, path: &[PEvent], crashes_used: usize) -> Judged {
   if cfg.prop == Prop::C16 { unrelated_prelude(); }
   crate::world::set_stamp_failures(cfg.stamp_fail);
+  crate::world::set_decl_direct(cfg.decl_direct);
   set_program(Some(prog.clone()));
   let mut live = Live::new();
   let mut an = Analyzer::new(prog, class, cfg.prop);
